@@ -497,7 +497,7 @@ def gen_history(rng, flavour, nsteps, p_remove=0.12):
                                 seen.add(fam)
                                 keep.append(i)
                         sel = keep
-                    return ['link', fresh('l'), rng.choice(['Patch', 'L2Path', 'L2Bridge']), [v.iface_path(i) for i in sel]]
+                    return ['link', fresh('l'), rng.choice(['Patch', 'L2Path', 'L1Path']), [v.iface_path(i) for i in sel]]
                 add(4 if flavour == 'sub' else 2, mk_link)
             if flavour == 'exp' and v.n:
                 def mk_mark():
